@@ -366,7 +366,13 @@ def cases(tier, seed):
     for c in out:
         if len(c["shape"]) != 2 or c["wpres"] not in ("same", "perm"):
             continue
-        if (c["depth"] == 1 and c["kind"] in ("fold", "cos2w")) or c["kind"] == "cos2w>fold" or (thorough and "fold" in c["kind"].split(">")):
+        kinds = c["kind"].split(">")
+        if c["kind"] in ("cos2w", "cos2w>fold"):
+            # the latitude sweep is large: second entry point where user weights are in play, all names for EOF, the plain name otherwise
+            take = c["start"]["w"][0] and (c["model"] == "EOF" or c["latname"] == "lat") and (thorough or c["kind"] == "cos2w>fold" or c["latname"] == "lat")
+        else:
+            take = "fold" in kinds and (c["depth"] == 1 or thorough)
+        if take:
             extra.append(dict(c, entry="fit_transform"))
     out += extra
     for c in out:
